@@ -990,6 +990,13 @@ FAULT_CORPUS = [
     "6 32 1 raw b:6162630d;b:78;b:1b5b41;b:1b5b44;b:08;b:0d;b:1b5b41;b:1b5b42;b:1b5b42",
     # Enter sent as a pair
     "16 32 1 raw b:61620d0a;b:63640a0d;b:0d0a",
+    # a sink that takes three bytes per write call: every partial write and every flush of echo, recall, handler output, error line and help fails in turn
+    "16 32 1 raw y:3;b:6563686f206162630d;b:1b5b41;b:08;b:0d;b:6e6f70650d;b:68656c700d",
+    # the sink's error reports another embedded_io::ErrorKind (Unsupported, BrokenPipe, WriteZero, Interrupted): handed back all the same
+    "16 32 1 raw k:1;b:6563686f206162630d;b:1b5b41;b:08;b:1b5b44;b:09;b:0d;b:6e6f70650d;w:s6869;p:2",
+    "16 32 1 raw k:2;b:6162;b:1b5b44;b:58;b:0d",
+    "16 32 1 raw k:3;b:68656c700d;b:78202d680d",
+    "16 32 1 raw k:5;b:6563686f206162630d;b:1b5b41;b:0d",
 ]
 
 
@@ -1010,7 +1017,7 @@ def c14(ck):
                    dl(0, "ge") + ";b:09", dl(3, "help опция"),
                    "40 64 1 d0 b:67652020;b:1b5b44;b:1b5b44;b:1b5b44;b:09;b:0d", "40 64 1 d4 b:6578;b:1b5b44;b:09;b:0d"]
     for k, s_ in enumerate(sets):
-        if thorough or k < 18:
+        if thorough or k < 20:
             # every write the generated help code makes (list of commands, every command's own help, nested sub-command help: usage line
             # with [COMMAND] / <COMMAND>, arguments, options, sub-command list) is failed once and for good
             decl_corpus.append(dl(k, "help"))
@@ -1041,14 +1048,17 @@ def c14(ck):
             continue
         mst = parse_steps(mo) if mo else None
         head, ops = b.split(" ", 4)[:4], b.split(" ", 4)[4].split(";")
-        # expand multi-byte b: ops to one byte per op so that step k = op k-1
+        # expand multi-byte b: ops to one byte per op so that step k = op k-1 (a `y:` op is no step: it only sets the sink's mode and stays in front)
         flat = []
+        sink_mode = None
         for op in ops:
             if op.startswith("b:"):
                 hx_ = op[2:]
                 if hx_ == ".":
                     continue              # an empty read: no call of process_byte, no step
                 flat += ["b:" + hx_[i:i + 2] for i in range(0, len(hx_), 2)]
+            elif op.startswith("y:") or op.startswith("k:"):
+                sink_mode = op if sink_mode is None else sink_mode + ";" + op
             else:
                 flat.append(op)
         # sink calls made by each step (after build)
@@ -1056,7 +1066,8 @@ def c14(ck):
         for k in range(1, len(st)):
             for j in range(calls[k]):
                 for mode in ("once", "perm"):
-                    c = " ".join(head) + " " + ";".join(flat[:k - 1] + ["x:%d:%s" % (j, mode), flat[k - 1], "x:off", "b:78", "b:0d"])
+                    pre_ = [sink_mode] if sink_mode else []
+                    c = " ".join(head) + " " + ";".join(pre_ + flat[:k - 1] + ["x:%d:%s" % (j, mode), flat[k - 1], "x:off", "b:78", "b:0d"])
                     same_calls = mst is not None and len(mst) == len(st) and all(
                         [x[0] for x in a["sink"].split(",")] == [x[0] for x in m_["sink"].split(",")] for a, m_ in zip(st[:k + 1], mst[:k + 1]))
                     (cases if same_calls else cases_only_impl).append(c)
@@ -1065,7 +1076,7 @@ def c14(ck):
                         # the failed key is a line terminator: the other terminator right after it still belongs to the same Enter
                         # (decoding depends on the byte sequence only, not on whether the sink worked)
                         other = "b:0a" if flat[k - 1] == "b:0d" else "b:0d"
-                        c2 = " ".join(head) + " " + ";".join(flat[:k - 1] + ["x:%d:%s" % (j, mode), flat[k - 1], "x:off", other, "b:78", "b:0d"])
+                        c2 = " ".join(head) + " " + ";".join(pre_ + flat[:k - 1] + ["x:%d:%s" % (j, mode), flat[k - 1], "x:off", other, "b:78", "b:0d"])
                         (cases if same_calls else cases_only_impl).append(c2)
                         nofault[c2] = (nofault[c][0], nofault[c][1], k, True)
 
@@ -1225,6 +1236,10 @@ def c03(ck):
         ops = gen.rand_session_ops(rng, rng.choice([20, 60]), api=True, malformed=True)
         ses.append("%d %d %d raw %s" % (cap, hcap, rng.randrange(4), ";".join(ops)))
     ses += gen.long_sessions(rng, 12 if thorough else 4)        # sizes beyond 255: a narrower integer than usize somewhere overflows only there
+    # every byte as the byte after ESC [ (with and without parameter bytes, in the middle of a line): final bytes 0x40..0x7E, parameter and
+    # intermediate bytes, controls and high bytes inside the sequence - a table indexed by `byte - b'A'` and the like shows at one value only
+    for f in range(256):
+        ses.append("8 8 1 raw b:6162;b:1b5b%02x;b:78;b:1b5b323b%02x;b:79;b:0d;b:1b5b41" % (f, f))
 
     def oracle(case, io):
         st = parse_steps(io)
@@ -1487,6 +1502,7 @@ def c09(ck):
         for e in declgen.set_enums(s_):
             for c_ in e["cmds"]:
                 lines += declgen.missing_arg_lines(rng, c_)       # each required argument missing on its own
+                lines += declgen.signed_boundary_lines(rng, c_)   # integer positionals at and beyond both ends of their range (after `--`)
         for i in range(0, len(lines), 8):
             cases.append(lines_to_session(k, lines[i:i + 8], cap=120))
 
@@ -1633,7 +1649,7 @@ def c16(ck):
     for line in ["help", "help echo", "echo -h", "echo --help a", "x -vh", "he", "quiet -- -h"]:
         ses.append("24 32 1 raw b:%s;b:09;b:0d;b:1b5b41;b:1b5b42;b:0d" % gen.hx(line.encode()))
     for k, s_ in enumerate(sets):
-        if k < (len(sets) if thorough else 18):
+        if k < (len(sets) if thorough else 20):
             lines = [declgen.rand_decl_line(rng, s_) for _ in range(6)] + ["help", declgen.q((declgen.all_names(s_) or ["x"])[0]) + " --help"]
             ses.append(lines_to_session(k, lines, cap=100))
             # every command with nothing after its name, and with every positional but the last: "missing required argument" by its
